@@ -291,7 +291,7 @@ def snapshot(comp, o):
     for py, _, _ in comp.fields:
         v = getattr(o, py)
         if isinstance(v, np.ndarray):
-            res.append((id(v), str(v.dtype), v.shape, tuple(map(id, v.tolist())) if v.dtype == object else v.tobytes()))
+            res.append((str(v.dtype), v.shape, tuple(map(id, v.tolist())) if v.dtype == object else v.tobytes()))  # content, not identity
         elif isinstance(v, (int, float, bool)) or v is None:
             res.append((type(v).__name__, repr(v)))
         else:
@@ -1176,12 +1176,21 @@ def model_events(ctx, pkg, recs, meta):
                 warnings.simplefilter("ignore")
                 eq = int(ok and (emb == m) and (m == emb) and str(emb) == str(m))
                 try:
-                    back = int(pkg.support.get_class(m) is cls and pkg.support.get_model(cls) is emb)
+                    back = int(pkg.support.get_model(cls) is emb and (isinstance(m, pydsdl.ServiceType) or pkg.support.get_class(m) is cls))
                 except Exception:  # noqa
                     back = 0
             embd = model_digest(emb) if ok else dict(model_digest(m), kind=cps("not-a-model"))
         except Exception as ex:  # noqa
             raise MachineryFailure("cannot digest the model of %s: %r" % (cls, ex))
+        # convenience alias <Name>_<major> of the package = newest minor version (Namespace.j2; not part of the statement)
+        same = [x for x in pkg.models if x.full_name == m.full_name and x.version.major == m.version.major]
+        if same and max(same, key=lambda x: x.version.minor) is m:
+            try:
+                mod = sys.modules[cls.__module__.rsplit(".", 1)[0]]
+                if getattr(mod, "%s_%d" % (m.short_name, m.version.major), None) is not cls:
+                    ctx.drift("package alias %s_%d is not the newest minor version %s" % (m.short_name, m.version.major, m))
+            except Exception:  # noqa
+                pass
         recs.append({"id": rid, "ev": "model", "src": model_digest(m), "emb": embd, "eq": eq, "back": back})
         meta[rid] = {"type": str(m), "op": "model", "tag": "service" if isinstance(m, pydsdl.ServiceType) else
                      ("delimited" if isinstance(m, pydsdl.DelimitedType) else "sealed")}
@@ -1314,7 +1323,6 @@ def selftests(ctx, pkg, hists, recs, rejected):
         return None
 
     bad = []
-    plan = []
     def corrupt(clause, pred, fn):
         r = first(pred)
         if r is None:
@@ -1400,8 +1408,8 @@ def part_code_to_spec(ctx, pkg_a):
         pkgs.append(Pkg(ctx, "c18s", {k: v.replace("{ns}", "c18s") for k, v in special_files().items()}))
     except GeneratedCodeBroken as ex:
         ctx.violation(ex.sig, str(ex), {"dir": "code->spec", "seed": ctx.seed, "tier": ctx.tier, "files": special_files()})
-    ntypes = ctx.pick(60, 140)
-    for i in range(ctx.pick(2, 8)):
+    ntypes = ctx.pick(70, 140)
+    for i in range(ctx.pick(3, 10)):
         ns = "c18r%d" % i
         files = rand_files(ctx.rng, ns, ntypes)
         try:
@@ -1411,8 +1419,8 @@ def part_code_to_spec(ctx, pkg_a):
     for p in pkgs:
         model_events(ctx, p, recs, meta)
     for p in pkgs[1:]:
-        random_events(ctx, p, recs, meta, ctx.pick(3, 6), ctx.pick(7, 10))
-        rt_events(ctx, p, recs, meta, ctx.pick(4, 10))
+        random_events(ctx, p, recs, meta, ctx.pick(4, 8), ctx.pick(8, 10))
+        rt_events(ctx, p, recs, meta, ctx.pick(5, 12))
     rt_events(ctx, pkg_a, recs, meta, 2)
     for ev in ("ctor", "assign", "model", "rt"):
         ex = next((r for r in recs if r["ev"] == ev and (ev != "assign" or r["out"] == "verr")), None)
